@@ -545,6 +545,73 @@ TABT_THEOREMS = ["AurelVerif.C01Tab." + t for t in (
     ["coh_%d" % k for k in (3, 4, 5, 7, 8, 9, 15, 16, 17, 18, 19, 20, 27, 28, 29, 30, 40, 41, 42, 43, 44, 45, 58, 60)]
     + ["tab_cohM", "tab_transparent", "sub124_closed", "hardCoh_124", "sub124_transparent", "sub124_no_recursion",
        "polAggr_ok", "polKeep_ok"])]
+# extension round 6: gdet, Momentumup3, s_Ricci_down3, Ttrace discharged against the constructed denotation (hypotheses
+# about the inputs only), HardCoh shrinks to HardCoh4, sub-tables of 125 / 139 / 147 keys
+LOC_LEMMAS = "AurelVerif.Lemmas.C01Loc"
+TABG_MODULE = "AurelVerif.Props.C01TabG"
+TABG_THEOREMS = ["AurelVerif.C01Tab." + t for t in (
+    "cons_of_absent", "sym_21_of_absent", "metricCons_of_absent", "assembled_E", "gammadet_E", "coh_33")]
+TABH_MODULE = "AurelVerif.Props.C01TabH"
+TABH_THEOREMS = ["AurelVerif.C01Loc." + t for t in (
+    "loc_s_Riemann_uddd3", "loc_s_Riemann_down3", "loc_s_Ricci_down3_alt", "loc_s_Ricci_down3_dflt", "loc_gup4",
+    "loc_gammaup3", "loc_gammaup4", "loc_nup4", "loc_rho_n", "loc_press_n", "loc_Ttrace_dflt", "loc_Ttrace_Tdown4")] + [
+    "AurelVerif.C01Tab." + t for t in (
+        "momCons_of_absent", "coh_152", "gammaup3_E", "inv_E", "coh_116", "gup4_E", "coh_82")]
+TABX_MODULE = "AurelVerif.Props.C01TabX"
+TABX_THEOREMS = ["AurelVerif.C01Tab." + t for t in (
+    "hardCoh_of", "sub125_closed", "sub139_closed", "sub147_closed", "hardCoh_125", "hardCoh_139", "hardCoh_147",
+    "sub125_transparent", "sub139_transparent", "sub139_transparent_plain", "sub147_transparent",
+    "tab_transparent_inputs", "inputsOK_of_absent", "inputsOK_ex", "metricCons_ex")]
+# st_Riemann_down4: return sites generated (Gen/CoreBig_st_Riemann_down4), test in mid-body, coherent for every input
+TABR_MODULE = "AurelVerif.Props.C01TabR"
+TABR_THEOREMS = ["AurelVerif.CacheGet.cohM_test_vs", "AurelVerif.CacheGet.feasibleM_nor4_true"] + [
+    "AurelVerif.C01Loc." + t for t in (
+        "loc_st_Riemann_down4_betaup3_matter", "loc_st_Riemann_down4_dflt_matter",
+        "loc_st_Riemann_down4_betaup3_vacuum", "loc_st_Riemann_down4_dflt_vacuum")] + [
+    "AurelVerif.C01Tab." + t for t in ("betaup3_zero", "coh_120", "hardCoh4_of", "tab_transparent_inputs3")]
+
+
+def necessity_witnesses(ctx):
+    """The input-consistency hypotheses of C01Tab.coh_33 (MetricCons) and coh_152 (MomCons) are NECESSARY: replay, on the
+    real code, one inconsistent input dictionary for each (a derived name supplied with a value the code would not
+    compute from the other inputs).  These are not violations of the property (the 'input spacetime' is not one)."""
+    try:
+        import numpy as np
+        from aurel import core, finitedifference
+        n = 6
+        fd = finitedifference.FiniteDifference(
+            {"Nx": n, "Ny": n, "Nz": n, "xmin": 0., "ymin": 0., "zmin": 0., "dx": 1 / n, "dy": 1 / n, "dz": 1 / n},
+            verbose=False)
+        one = np.ones((n, n, n))
+
+        def mk(d):
+            rel = core.AurelCore(fd, verbose=False)
+            rel.data.update(d)
+            rel.freeze_data()
+            return rel
+        a = mk({"gtt": 5 * one})
+        fresh = float(np.ravel(a["gdet"])[0])
+        b = mk({"gtt": 5 * one})
+        b["gdown4"]
+        after = float(np.ravel(b["gdet"])[0])
+        c = mk({"Momentumx": 5 * one})
+        mfresh = [float(x) for x in np.array(c["Momentumup3"])[:, 0, 0, 0]]
+        d = mk({"Momentumx": 5 * one})
+        d["Momentumy"], d["Momentumz"]
+        d.data.pop("Momentumup3", None)           # what an eviction does
+        d.last_accessed.pop("Momentumup3", None)
+        mafter = [float(x) for x in np.array(d["Momentumup3"])[:, 0, 0, 0]]
+        ctx.cov["necessity_witnesses"] = {"inputs {gtt=5}": {"gdet fresh": fresh, "gdet after gdown4": after},
+                                          "inputs {Momentumx=5}": {"Momentumup3 fresh": mfresh,
+                                                                   "after Momentumy, Momentumz, eviction": mafter}}
+        ctx.obligation("necessity witnesses of the input hypotheses MetricCons / MomCons replay on the real code",
+                       fresh != after and mfresh != mafter,
+                       "gdet %r vs %r; Momentumup3 %r vs %r" % (fresh, after, mfresh, mafter), kind="correspondence")
+    except Exception as ex:  # noqa
+        ctx.obligation("necessity witnesses of the input hypotheses MetricCons / MomCons replay on the real code", False,
+                       "could not be replayed: %r" % ex, kind="correspondence")
+
+
 COHERENCE_NEEDED = ["gxx", "gxy", "gxz", "gyy", "gyz", "gzz", "gammadown3", "kxx", "kxy", "kxz", "kyy", "kyz", "kzz",
                     "Kdown3", "betax", "betay", "betaz", "betaup3", "dtbetax", "dtbetay", "dtbetaz", "dtbetaup3",
                     "s_to_st", "Ttrace", "gtt", "gtx", "gty", "gtz", "gdet", "rho0", "eps", "rho",
@@ -554,7 +621,10 @@ COHERENCE_NEEDED = ["gxx", "gxy", "gxz", "gyy", "gyz", "gzz", "gammadown3", "kxx
 COHERENCE_LEAN_FILES = ["AurelVerif/Props/C01Coherence.lean", "AurelVerif/Props/C01CoherenceA.lean",
                         "AurelVerif/Props/C01CoherenceC.lean", "AurelVerif/Props/C10Coh.lean", "AurelVerif/Props/C01M.lean",
                         "AurelVerif/Props/C01Sub.lean", "AurelVerif/Lemmas/CacheGetM.lean", "AurelVerif/Lemmas/CacheDen.lean",
-                        "AurelVerif/Props/C01Tab.lean", "AurelVerif/Props/C01TabT.lean", "AurelVerif/Gen/C01Table.lean"]
+                        "AurelVerif/Props/C01Tab.lean", "AurelVerif/Props/C01TabT.lean", "AurelVerif/Gen/C01Table.lean",
+                        "AurelVerif/Lemmas/C01Loc.lean", "AurelVerif/Props/C01TabG.lean", "AurelVerif/Props/C01TabH.lean",
+                        "AurelVerif/Props/C01TabX.lean", "AurelVerif/Props/C01TabR.lean", "AurelVerif/Lemmas/C01LocR.lean",
+                        "AurelVerif/Lemmas/CacheDenMid.lean"]
 
 # --------------------------------------------------------------------------
 # the coherence table: every guard of the source -> class -> covering theorems
@@ -776,12 +846,17 @@ def coherence_table(ctx, info, index, proven):
         "alternatives_needing_coherence": len(need), "alternatives_with_theorem": len([a for a in need if a in covered_by and a not in gaps]),
         "alternatives_known_gap": sorted(a for a in need if a in gaps),
         "keys_whose_alternatives_differ_by_option_only": flag_only,
-        "sub_table_with_H2_proven_outright": "124 keys closed under reads (C01Tab.sub124_transparent, constructed denotation, "
-                                             "generated return-site table Gen/C01Table.lean): all 161 keys except the 8 guarded "
-                                             "bodies gdet, Ttrace, s_Ricci_down3, st_Riemann_down4, st_Ricci_down4, "
-                                             "st_Ricci_down3, st_Weyl_down4, Momentumup3 and the 29 keys that read them; "
+        "sub_table_with_H2_proven_outright": "124 keys closed under reads with NO hypothesis (C01Tab.sub124_transparent, constructed "
+                                             "denotation, generated return-site table Gen/C01Table.lean); 125 (+gdet) / 139 "
+                                             "(+Momentumup3 and its 13 dependents) / 147 keys (+Ttrace, s_Ricci_down3 and their "
+                                             "dependents) under hypotheses about the INPUTS only (C01Tab.sub125_transparent, "
+                                             "sub139_transparent[_plain], sub147_transparent: consistency of redundantly supplied "
+                                             "derived names, alpha != 0, det gamma != 0); outside: st_Riemann_down4 (coherent for "
+                                             "every input: C01Tab.coh_120), the three class (c) bodies st_Ricci_down4, "
+                                             "st_Ricci_down3, st_Weyl_down4 and the 10 keys that read them; "
                                              "25 keys with a hand-written denotation (C01Sub.sub_transparent)",
-        "full_table": "C01Tab.tab_transparent: all 161 keys under HardCoh = branch coherence of those 8 guarded bodies only"}
+        "full_table": "C01Tab.tab_transparent_inputs3: all 161 keys under InputsOK (inputs) and HardCoh3 = branch coherence of "
+                      "st_Ricci_down4, st_Ricci_down3, st_Weyl_down4 only (C01Tab.tab_transparent: under HardCoh, 8 bodies)"}
     ctx.obligation("coherence coverage: every guard and every cache-dependent alternative of the current source has a "
                    "proven coherence theorem (%d guards, %d alternatives, %d known gap)"
                    % (len(info["guards"]), len(need), len([a for a in need if a in gaps])),
@@ -868,6 +943,11 @@ def run(ctx):
                     ctx.obligation("py2lean:c01table", False, "generation failed: %r" % ex, kind="translation")
                 ctx.prove(TAB_MODULE, TAB_THEOREMS, timeout=2400)
                 ctx.prove(TABT_MODULE, TABT_THEOREMS, timeout=2400)
+                ctx.prove(TABG_MODULE, TABG_THEOREMS, timeout=2400)
+                ctx.prove(TABH_MODULE, TABH_THEOREMS, timeout=2400)
+                ctx.prove(TABX_MODULE, TABX_THEOREMS, timeout=2400)
+                ctx.prove(TABR_MODULE, TABR_THEOREMS, timeout=2400)
+                necessity_witnesses(ctx)
             ctx.forbidden_scan(COHERENCE_LEAN_FILES)
             if info is not None:
                 proven = {o["name"]: o["ok"] for o in ctx.obligs if o["kind"] == "theorem"}
@@ -878,7 +958,7 @@ def run(ctx):
     except Exception as ex:  # noqa
         ctx.obligation("coherence theorems", False, "could not be checked: %r" % ex)
     if ctx.tier == "thorough":
-        ctx.leanchecker([MODULE, SHARP_MODULE, SUB_MODULE, TAB_MODULE, TABT_MODULE])
+        ctx.leanchecker([MODULE, SHARP_MODULE, SUB_MODULE, TAB_MODULE, TABT_MODULE, TABG_MODULE, TABH_MODULE, TABX_MODULE, TABR_MODULE])
     # correspondence (bookkeeping) — shared harness with C03
     runs = C03.correspondence(ctx, "C01", ctx.budget(12, 60), ctx.budget(30, 60))
     # independent search oracle (always; larger when something is broken)
@@ -934,7 +1014,7 @@ MANIFEST = {
             "the table and the inputs (Lemmas/CacheDen.lean: value of the bodies when presence tests see only the inputs; "
             "well-defined by the kernel-checked rank certificate), so that branch coherence is AUTOMATIC for the 129 bodies "
             "that test no presence of a key with a method, whatever their formulas (tableCohM_of_guarded, aurel_guarded); "
-            "tools/py2lean/c01table.py generates the return-site function table Gen/C01Table.lean (148 keys, 186 return sites: "
+            "tools/py2lean/c01table.py generates the return-site function table Gen/C01Table.lean (149 keys, 190 return sites since round 6: "
             "return site -> traced alternative of Gen/CoreKeys|CoreCurv applied to the values read, the finite-difference "
             "operator D, kappa, Lambda as parameters; the other formulas arbitrary); coherence of 24 of the 32 guarded bodies "
             "(betax.., dtbetax.., gxx.., kxx.., gtt, gtx, gty, gtz, rho0, eps) is proven from these generated formulas for "
@@ -942,20 +1022,41 @@ MANIFEST = {
             "reads (sub124_closed), every field, every D, every option valuation, every input dictionary, every admissible "
             "eviction policy, every history, the value returned is the one a fresh instance returns - no hypothesis about "
             "the bodies; C01Tab.tab_transparent: the same for all 161 keys under HardCoh = branch coherence of the 8 "
-            "remaining guarded bodies only (gdet, Ttrace, s_Ricci_down3, st_Riemann_down4, Momentumup3: algebraic; "
-            "st_Ricci_down4, st_Ricci_down3, st_Weyl_down4: on shell). A guard or cache-dependent alternative that "
+            "remaining guarded bodies. Extension round 6 (Props/C01TabG|H|X|R.lean, Lemmas/C01Loc|C01LocR|CacheDenMid.lean): "
+            "five of those 8 are discharged against the constructed denotation by connecting the per-guard theorems "
+            "(C08.gdet_coherent, C01Coherence.Ttrace_coherent, s_Ricci_down3_coherent, Momentumup3_components_coherent, "
+            "st_Riemann_down4_shift_coherent) to the environment E of the denotation through locality lemmas of the generated "
+            "definitions: coh_33 (gdet), coh_82 (Ttrace), coh_116 (s_Ricci_down3), coh_152 (Momentumup3) under hypotheses "
+            "about the INPUTS only - a derived name that is supplied redundantly (gtt, betamag, betadown3, gammadet, gup4, "
+            "gammaup3, gammaup4, nup4, rho_n, press_n, s_Riemann_uddd3, Momentumx|y|z) has the value the code computes from "
+            "the other inputs (Cons; void when the name is not supplied), gamma symmetric, and for Ttrace/s_Ricci_down3 "
+            "alpha != 0, det gamma != 0, 3 != 0; the consistency hypotheses are necessary (inputs {gtt=5}: gdet -1 fresh, 5 "
+            "after gdown4; inputs {Momentumx=5}: Momentumup3 (0,0,0) fresh, (5,0,0) after Momentumy, Momentumz and an "
+            "eviction - both replayed on the real code on every run); coh_120 (st_Riemann_down4, 256 components, presence "
+            "test in mid-body; its four return sites are now generated) with NO hypothesis. Hence sub125_transparent, "
+            "sub139_transparent (sub139_transparent_plain: no hypothesis at all when none of gtt, betamag, betadown3, "
+            "gammadet, gammadown3, Momentumx|y|z is supplied), sub147_transparent (sub-tables closed under reads: "
+            "sub125|139|147_closed) and tab_transparent_inputs3: all 161 keys, every history, policy, D, option valuation, "
+            "under InputsOK and HardCoh3 = coherence of the three class (c) bodies st_Ricci_down4, st_Ricci_down3, "
+            "st_Weyl_down4 only. A guard or cache-dependent alternative that "
             "appears in the source without a registered, proven theorem is reported as uncovered and breaks an obligation.",
     "note": "Trusted: Lean kernel + standard axioms; the AST translator of the dependency shapes (validated against every "
             "recorded real miss); the symbolic-execution translator of the formulas (translation validation each run); the "
             "hand models (trace replay). NOT proven: coherence of the Riemann-based and the E/B-based st_Weyl_down4 (needs: "
             "electric/magnetic parts of the Riemann-based tensor are eweyl_n/bweyl_n, and uniqueness of a Weyl-like tensor "
-            "with given parts) - oracle only; the per-guard theorems of the 8 guarded bodies gdet (needs supplied gtt/betadown3/"
-            "betamag/gammadet consistent with alpha, beta, gamma and gamma symmetric: with inputs {gtt} only, gdet is -1 fresh "
-            "but det(gdown4) after gdown4 was cached - inconsistent input, not a defect), Ttrace, s_Ricci_down3, "
-            "st_Riemann_down4, Momentumup3 (class a) and st_Ricci_down4, st_Ricci_down3, st_Weyl_down4 (class c) are stated "
-            "with hypotheses `e.X = X e` and are NOT yet discharged against the constructed denotation: they enter "
-            "C01Tab.tab_transparent as the hypothesis HardCoh, and the 37 keys that depend on them are outside the "
-            "hypothesis-free 124-key theorem; in Gen/C01Table a key read several times in one body is represented by its "
+            "with given parts) - oracle only [superseded: Props/C10Coh.lean]; the per-guard theorems of the three class (c) "
+            "bodies st_Ricci_down4, st_Ricci_down3, st_Weyl_down4 (coherent on solutions of Einstein's equations only: "
+            "Props/C01CoherenceC.lean, Props/C10Coh.lean, stated with hypotheses `e.X = X e`, OnShell and Layer-B "
+            "hypotheses) are NOT yet discharged against the constructed denotation: they enter "
+            "C01Tab.tab_transparent_inputs3 as the hypothesis HardCoh3, and the 14 keys st_Riemann_uddd4, st_Riemann_down4, "
+            "st_Riemann_uudd4, st_Ricci_down4, st_Ricci_down3, st_RicciS, Einsteindown4, Kretschmann, st_Weyl_down4, Weyl_Psi, "
+            "Psi4_lm, Weyl_invariants, eweyl_u_down4, bweyl_u_down4 are outside the 147-key theorem; for gdet, Ttrace, "
+            "s_Ricci_down3, Momentumup3 the theorems carry hypotheses about the inputs (InputsOK: consistency of redundantly "
+            "supplied derived names - necessary, see the replayed witnesses; regular metric for Ttrace/s_Ricci_down3 - "
+            "det gamma != 0 is sufficient, not shown necessary); the return-site formulas of 12 keys (st_Riemann_uddd4, "
+            "st_Riemann_uudd4, st_Weyl_down4, Kretschmann, eweyl_u_down4, bweyl_u_down4, Weyl_Psi, Psi4_lm, Weyl_invariants, "
+            "dtconserved, ...) are the arbitrary parameter `rest` (every theorem holds for every choice); "
+            "in Gen/C01Table a key read several times in one body is represented by its "
             "first read (immaterial for the theorems: all reads return the denotation); numerical closeness (discretisation error) of the class c alternatives; that the data solve "
             "Einstein's equations. In-place mutation is C02.",
 }
